@@ -43,6 +43,9 @@ pub struct Deserializer<'xml> {
 
     /// number of elements that are open at the reader position
     depth: usize,
+
+    /// start tag of the element that was entered last
+    start: Option<BytesStart<'xml>>,
 }
 
 /// XML deserialization result
@@ -108,6 +111,7 @@ impl<'xml> Deserializer<'xml> {
             peeked: None,
             next_slot: None,
             depth: 0,
+            start: None,
         }
     }
 
@@ -186,6 +190,7 @@ impl<'xml> Deserializer<'xml> {
                     if x.name().as_ref() != name {
                         return Err(unexpected_tag_name());
                     }
+                    self.start = Some(x);
                     return Ok(());
                 }
                 DeEvent::End(_) => return Err(unexpected_end()),
@@ -240,6 +245,7 @@ impl<'xml> Deserializer<'xml> {
             match self.peek_event()? {
                 DeEvent::Start(start) => {
                     self.consume_peeked();
+                    self.start = Some(start.clone());
                     let name = start.name();
                     let ans = f(self, name.as_ref())?;
                     self.expect_end(name.as_ref())?;
@@ -264,6 +270,7 @@ impl<'xml> Deserializer<'xml> {
             match self.peek_event()? {
                 DeEvent::Start(start) => {
                     self.consume_peeked();
+                    self.start = Some(start.clone());
 
                     let name = start.name();
                     f(self, name.as_ref())?;
@@ -354,6 +361,25 @@ impl<'xml> Deserializer<'xml> {
             Ok(())
         })?;
         Ok(list)
+    }
+
+    /// Returns the value of an attribute of the element whose content is being deserialized.
+    ///
+    /// The start tag is the one that was read last: ask for the attributes before any child element is read.
+    ///
+    /// # Errors
+    /// Returns an error if the attributes or the value are malformed.
+    pub fn attribute(&self, name: &str) -> DeResult<Option<String>> {
+        let Some(start) = self.start.as_ref() else { return Ok(None) };
+        let Some(attr) = start.try_get_attribute(name).map_err(|e| invalid_xml(e.into()))? else {
+            return Ok(None);
+        };
+        let raw = std::str::from_utf8(&attr.value).map_err(|_| DeError::InvalidContent)?;
+        // Attribute-value normalization (XML 1.0, section 3.3.3): after the line ends, every literal tab
+        // and line feed is a space. This happens before references are resolved.
+        let normalized = normalize_line_ends(raw).replace(['\t', '\n'], " ");
+        let value = quick_xml::escape::unescape(&normalized).map_err(|e| invalid_xml(e.into()))?;
+        Ok(Some(value.into_owned()))
     }
 
     pub fn timestamp(&mut self, fmt: TimestampFormat) -> DeResult<Timestamp> {
